@@ -147,6 +147,19 @@ def f_extra(pkg, rng):
     return f"extra:{n}"
 
 
+def f_dir_entries(pkg, rng):
+    """the zero-length entry per directory that a general-purpose archiver writes when a package is unzipped and zipped
+    again (`zip -r`, 7-Zip, Finder): "ppt/", "ppt/slides/", "_rels/" ... - members no relationship refers to"""
+    dirs = sorted({"/".join(n.split("/")[:k]) + "/" for n in pkg["members"] for k in range(2, n.count("/") + 1)})
+    dirs = [d for d in dirs if d not in pkg["members"]]
+    if not dirs:
+        return None
+    pick = dirs if rng.random() < 0.5 else rng.sample(dirs, rng.randint(1, len(dirs)))
+    for d in pick:
+        pkg["members"][d] = b""
+    return f"directory-entries:{len(pick)}"
+
+
 def f_rename_slides(pkg, rng):
     import re
 
@@ -222,7 +235,7 @@ def f_empty_part(pkg, rng):
     return f"empty-part@{s}"
 
 
-FAULTS = [f_dangle, f_drop_rels, f_no_core, f_case, f_unknown_ct, f_extra, f_rename_slides, f_upper_ext, f_empty_part]
+FAULTS = [f_dangle, f_drop_rels, f_no_core, f_case, f_unknown_ct, f_extra, f_rename_slides, f_upper_ext, f_empty_part, f_dir_entries]
 
 
 def model_line_for(pkg):
